@@ -96,28 +96,28 @@ Lemma infer_XMeth : forall strict FS G m r args,
   end.
 Proof. intros. cbn [infer]. rewrite infers_inner. reflexivity. Qed.
 
-Lemma evals_inner : forall strict callf FS G en es,
+Lemma evals_inner : forall callf FS G en es,
   (fix evals (es : list tm) : rs (list value) :=
      match es with
      | [] => R_ok []
-     | x :: r => rbind (eval strict callf FS G en x) (fun v => rbind (evals r) (fun vs => R_ok (v :: vs)))
-     end) es = evals strict callf FS G en es.
+     | x :: r => rbind (eval callf FS G en x) (fun v => rbind (evals r) (fun vs => R_ok (v :: vs)))
+     end) es = evals callf FS G en es.
 Proof. induction es as [|x r IH]; [reflexivity|]. cbn [evals]. rewrite <- IH. reflexivity. Qed.
 
-Lemma eval_XList : forall strict callf FS G en es,
-  eval strict callf FS G en (XList es) = rbind (evals strict callf FS G en es) (fun vs => R_ok (VList vs)).
+Lemma eval_XList : forall callf FS G en es,
+  eval callf FS G en (XList es) = rbind (evals callf FS G en es) (fun vs => R_ok (VList vs)).
 Proof. intros. cbn [eval]. rewrite evals_inner. reflexivity. Qed.
 
-Lemma eval_XCall : forall strict callf FS G en f args,
-  eval strict callf FS G en (XCall f args) =
-  rbind (evals strict callf FS G en args) (fun vs => rbind (callf f vs) (wrapv (infer strict FS G (XCall f args)))).
+Lemma eval_XCall : forall callf FS G en f args,
+  eval callf FS G en (XCall f args) =
+  rbind (evals callf FS G en args) (fun vs => rbind (callf f vs) (wrapv (infer false FS G (XCall f args)))).
 Proof. intros. cbn [eval]. rewrite evals_inner. reflexivity. Qed.
 
-Lemma eval_XMeth : forall strict callf FS G en m r args,
-  eval strict callf FS G en (XMeth m r args) =
-  rbind (eval strict callf FS G en r) (fun vr =>
-    rbind (evals strict callf FS G en args) (fun vs =>
-      rbind (meth_op m vr vs) (wrapv (infer strict FS G (XMeth m r args))))).
+Lemma eval_XMeth : forall callf FS G en m r args,
+  eval callf FS G en (XMeth m r args) =
+  rbind (eval callf FS G en r) (fun vr =>
+    rbind (evals callf FS G en args) (fun vs =>
+      rbind (meth_op m vr vs) (wrapv (infer false FS G (XMeth m r args))))).
 Proof. intros. cbn [eval]. rewrite evals_inner. reflexivity. Qed.
 
 (** ** statements *)
@@ -151,15 +151,15 @@ Proof.
   destruct t; auto. rewrite blk_inner. reflexivity.
 Qed.
 
-Lemma block_inner : forall strict fuel ss s,
+Lemma block_inner : forall fuel ss s,
   (fix block (ss : list st) (s : state) : sres :=
      match ss with
      | [] => S_ok s
-     | y :: r => match exec strict fuel y s with S_ok s' => block r s' | bad => bad end
-     end) ss s = exec_block strict fuel ss s.
+     | y :: r => match exec fuel y s with S_ok s' => block r s' | bad => bad end
+     end) ss s = exec_block fuel ss s.
 Proof.
   induction ss as [|y r IH]; intros s; [reflexivity|]. cbn [exec_block].
-  destruct (exec strict fuel y s); auto.
+  destruct (exec fuel y s); auto.
 Qed.
 
 Lemma for_loop_ext : forall f g v t items s, (forall s, f s = g s) -> for_loop f v t items s = for_loop g v t items s.
@@ -168,27 +168,26 @@ Proof.
   destruct (g _); auto.
 Qed.
 
-Lemma exec_TIf : forall strict fuel c th el s,
-  exec strict fuel (TIf c th el) s =
-  with_val s (ev strict fuel s c) (fun v =>
-    match (if truthy v then exec_block strict fuel th s else exec_block strict fuel el s) with
+Lemma exec_TIf : forall fuel c th el s,
+  exec fuel (TIf c th el) s =
+  with_val s (ev fuel s c) (fun v =>
+    match (if truthy v then exec_block fuel th s else exec_block fuel el s) with
     | S_ok s' => S_ok (restore s s')
     | bad => bad
     end).
 Proof. intros. cbn [exec]. rewrite !block_inner. reflexivity. Qed.
 
-Lemma exec_TFor : forall strict fuel v it body s,
-  exec strict fuel (TFor v it body) s =
-  match infer strict (sigs (s_F s)) (s_G s) it with
+Lemma exec_TFor : forall fuel v it body s,
+  exec fuel (TFor v it body) s =
+  match infer false (sigs (s_F s)) (s_G s) it with
   | Some (T_List t _) =>
-    with_val s (ev strict fuel s it) (fun vit =>
+    with_val s (ev fuel s it) (fun vit =>
       match vit with
-      | VList items => for_loop (exec_block strict fuel body) v t items s
+      | VList items => for_loop (exec_block fuel body) v t items s
       | _ => S_err EType (s_out s)
       end)
   | _ => S_err EStatic (s_out s)
   end.
 Proof.
-  intros. cbn [exec]. destruct (infer strict (sigs (s_F s)) (s_G s) it) as [t|]; auto.
+  intros. cbn [exec]. destruct (infer false (sigs (s_F s)) (s_G s) it) as [t|]; auto.
 Qed.
-
